@@ -10,3 +10,4 @@ import GoFlags.Props.C04
 #print axioms GoFlags.C04.wrapError_flags
 #print axioms GoFlags.C04.output_discipline
 #print axioms GoFlags.C04.setup_error_replayed
+#print axioms GoFlags.C04.argument_loop_terminates
